@@ -1,5 +1,6 @@
 """C30 unit: the real OptimisticReadWriteLock + detail::Waiter from ParallelUtil.h."""
 import os
+import re
 from vxlib.extract import Source, strip_comments, ExtractError
 from vxlib import rewrite as rw
 from vxlib.cbmc import Harness
@@ -16,6 +17,24 @@ NATIVE_PRELUDE = '''#include <atomic>
 
 WAITER_OVF = (r'operator\(\)\.overflow\.\d+ arithmetic overflow on signed \+ in this->i \+ 1', 'signed overflow of the plain-int spin counter detail::Waiter::i after 2^31 spins of ONE wait '
               '(the hook makes i arbitrary); outside every listed property; assumption: fewer than 2^31 spins per wait')
+
+
+def local_types(docs, func_name):
+    """name -> declared type of the parameters and locals of func_name (first definition found)"""
+    out = {}
+    found = []
+
+    def find_fn(n, parents):
+        if n.get('kind') in ('CXXMethodDecl', 'FunctionDecl') and n.get('name') == func_name and any(c.get('kind') == 'CompoundStmt' for c in n.get('inner', []) or []):
+            found.append(n)
+    for d in docs:
+        rw.walk(d, find_fn)
+    if found:
+        def v(n, parents):
+            if n.get('kind') in ('ParmVarDecl', 'VarDecl') and n.get('name'):
+                out.setdefault(n['name'], n.get('type', {}).get('desugaredQualType', n.get('type', {}).get('qualType', '')))
+        rw.walk(found[0], v)
+    return out
 
 
 def extract(ctx):
@@ -39,13 +58,16 @@ def extract(ctx):
     ]
     for h in hooks:
         mod = rw.loop_modified(docs, raw, h['name'], h['k'])
-        # the spin loops may or may not keep the observed version in a local `v`: the hook takes a null pointer when there is none
-        if 'v' not in mod:
-            h['args'] = '(int*)0, (int*)&wait'
-        missing = [x for x in mod if x not in h['vars']]
-        log['loop %s.%d modified set (clang)' % (h['name'], h['k'])] = mod
-        if missing:
-            raise ExtractError('loop %s.%d modifies %s which its hook does not havoc' % (h['name'], h['k'], missing))
+        # the hook havocs (a) the local that keeps the observed version, if the loop has one (null pointer otherwise), and (b) the Waiter.
+        # Both are identified by their declared TYPE, not by name: renaming a local must not break the hook.
+        types = local_types(docs, h['name'])
+        waiters = [x for x in mod if 'Waiter' in types.get(x, '')]
+        ints = [x for x in mod if x not in waiters and re.match(r'^(int|unsigned|unsigned int|long|unsigned long|std::size_t|size_t)$', types.get(x, '').replace('const ', '').strip())]
+        missing = [x for x in mod if x not in waiters and x not in ints]
+        log['loop %s.%d modified set (clang)' % (h['name'], h['k'])] = ['%s: %s' % (x, types.get(x, '?')) for x in mod]
+        if missing or len(waiters) != 1 or len(ints) > 1:
+            raise ExtractError('loop %s.%d modifies %s: the hook can havoc one integer local and one Waiter' % (h['name'], h['k'], ['%s: %s' % (x, types.get(x, '?')) for x in mod]))
+        h['args'] = '%s, (int*)&%s' % (('&' + ints[0]) if ints else '(int*)0', waiters[0])
     text = rw.r9_hooks(text, hooks, log)
     text = rw.r3_default(text, log)
     text = rw.r4b_nsdmi(text, 'Waiter', log)
